@@ -133,7 +133,7 @@ def topological_sort[S](
     Returns nodes ordered so that for every edge u→v, u comes before v.
     Returns INFEASIBLE status if the graph contains a cycle.
     """
-    node_list = list(nodes)
+    node_list = list(dict.fromkeys(nodes))  # a node listed twice is still one node
     node_set = set(node_list)
 
     # Build in-degree map
